@@ -24,6 +24,7 @@ from fractions import Fraction
 
 import numpy as np
 
+from . import c01_modelica as MO
 from . import c01_synth as S
 from .common import fr, quiet_fd
 
@@ -48,7 +49,9 @@ def run_code(inst, prob=None):
 
     cs = Case()
     cs.inst = inst
-    cs.prob = prob if prob is not None else S.make_problem(inst)
+    if prob is None:
+        prob = MO.build(inst) if inst.get("modelica") else S.make_problem(inst)
+    cs.prob = prob
     _d, _lbx, _ubx, lbg, ubg, _x0, nlp = S.transcribe(cs.prob)
     X, g = nlp["x"], nlp["g"]
     cs.N = X.size1()
@@ -176,7 +179,7 @@ def wire_dense(Xv):
 # multiset comparison of rows
 
 
-def match_rows(ref, got, ref_b, got_b, subset=False):
+def match_rows(ref, got, ref_b, got_b, subset=False, anysign=False):
     """ref, got: 2-D float arrays (rows x features); *_b: list of (lb, ub) per row.
     Returns None when the two are equal as multisets (1e-9 relative per entry, plus 1e-10 of the
     row scale for entries that cancel), else a short description."""
@@ -192,6 +195,8 @@ def match_rows(ref, got, ref_b, got_b, subset=False):
         rowmax = max(1.0, float(np.max(np.abs(a))) if a.size else 1.0)
         tol = 1e-9 * np.maximum(np.abs(a)[None, :], np.abs(got)) + 1e-10 * rowmax
         ok = np.all(np.abs(got - a[None, :]) <= tol, axis=1) & ~used
+        if anysign:  # an equality row and its negative are the same equation
+            ok = ok | (np.all(np.abs(got + a[None, :]) <= tol, axis=1) & ~used)
         for q in np.nonzero(ok)[0]:
             if tuple(ref_b[r]) == tuple(got_b[q]):
                 used[q] = True
@@ -423,7 +428,8 @@ def compare(c, cs, out):
 
     def both(M, bounds, C, what_main, what_pc, report, parts=None):
         (Mm, bm), (Mp, _bp) = parts if parts is not None else split(M, bounds)
-        why = match_rows(Mm, sel(C, code_main), bm, [code_b[r] for r in code_main])
+        anys = bool(inst.get("anysign"))
+        why = match_rows(Mm, sel(C, code_main), bm, [code_b[r] for r in code_main], anysign=anys)
         if why:
             report(what_main + why)
         elif pcpos:
@@ -502,7 +508,7 @@ def oracle_fails(inst, seed=12345):
     main = [r for r in range(cs.R) if not (has_pc and code_b[r] == pcb)]
     pcs = [r for r in range(cs.R) if has_pc and code_b[r] == pcb]
     sel = lambda M, rows: M[rows, :] if len(rows) else np.zeros((0, M.shape[1]))  # noqa: E731
-    if match_rows(om, sel(gd, main), [(0.0, 0.0)] * om.shape[0], [code_b[r] for r in main]):
+    if match_rows(om, sel(gd, main), [(0.0, 0.0)] * om.shape[0], [code_b[r] for r in main], anysign=bool(inst.get("anysign"))):
         return True
     if has_pc and match_rows(op, sel(gd, pcs), [pcb] * op.shape[0], [pcb] * len(pcs), subset=True):
         return True
@@ -611,7 +617,7 @@ def solve_and_check(c, cs):
             big = max(big, max(abs(float(x)) for x in vals))
             tm.append(vals)
         traj.append(tm)
-        dinit.append([Fraction(float(np.asarray(res["initial_der(x%d)" % s]).ravel()[0])) for s in range(inst["ns"])])
+        dinit.append([Fraction(float(np.asarray(res["initial_der(%s)" % cs.vs[s]]).ravel()[0])) for s in range(inst["ns"])])
         big = max([big] + [abs(float(x)) for x in dinit[-1]])
     # result extraction: the returned trajectories are the decoded solver output (nominal * X[index])
     try:
@@ -696,24 +702,36 @@ def run_batch(c, insts, rng, solve=False):
 def run(c):
     c.rule = (
         "random synthetic DAEs (0-3 states [thorough: up to 8], algebraics, 0-3 controls, 0-3 constant inputs on their "
-        "own stamps with the three interpolation modes, 0-4 parameters; sparse dyadic polynomial residuals, optional "
-        "initial equations, optional complete histories), grids of 0-6 [12] non-equidistant steps, t0 in {0, 3, -2.5}, "
-        "theta in {0, 1/4, 1/2, 3/4, 1, 0.3}, E in 1..4 with forced coincidences between members and forced 0/1 values, "
-        "nominals 2^-10..1e4; some controls on a coarser grid of their own.  distinct = (kind, sizes, E, #stamps, theta, "
-        "t0, complete/probe comparison, own grids, initial equations) tuples"
+        "own stamps with the three interpolation modes and series that do not cover the horizon, 0-4 parameters some "
+        "declared dynamic; sparse dyadic polynomial residuals (affine; x*p, x*c, x*t; nonlinear x^2, x*u, x*der), "
+        "optional initial equations, optional complete histories, optional path/extra variables and extra inputs that "
+        "are not part of the DAE), grids of 1-6 [12] non-equidistant steps (rarely a single stamp), t0 in {0, 3, -2.5}, "
+        "theta in {0, 1/4, 1/2, 3/4, 1, 0.3}, E in 1..4 with forced coincidences between members and forced 0/1 "
+        "values, nominals 2^-10..1e4 (powers of two and decimals); streams: main, variables on a coarser grid of their "
+        "own, second transcribe() of the same object with changed dynamic parameters, history probe (initial "
+        "derivatives of algebraics/controls observed through the t0 instance of a path constraint), real solves.  "
+        "distinct = (kind, sizes, E, #stamps, theta, t0, complete/probe comparison, own grids, initial equations) tuples"
     )
     c.assumptions = [
-        "CasADi evaluates the residual function F, `map`, `reshape`, `jacobian`, `reduce_matvec` as documented (F is a parameter of the theorems)",
+        "CasADi evaluates the residual function F, `map`, `reshape`, `jacobian`, `reduce_matvec`, `interp1d` as documented "
+        "(F and Finit are parameters of the theorems; the interpolants are the C19 model)",
         "integrate_states = True (single shooting) is outside the model: there are no collocation rows to characterise",
         "lookup tables substituted inside F are part of F (not modelled separately)",
-        "IPOPT returns a point within lbg/ubg to its tolerance when it reports success (theorem C01_feasible_satisfies_residuals turns that into the residual bound)",
+        "IPOPT returns a point within lbg/ubg to its tolerance when it reports success (theorem "
+        "C01_feasible_satisfies_residuals turns that into the residual bound)",
         "rows compared with 1e-9 relative tolerance (binary64 vs exact rationals; quotients by dt and nominals are formed)",
-        "delay rows, user constraints, path constraints and history-derived initial-derivative rows are other properties' rows (C16, C06, C05); the synthetic problems contain none",
+        "delay rows, user constraints, path constraints and history-derived initial-derivative rows (NaN at t0) are other "
+        "properties' rows (C16, C06, C05); the synthetic problems contain none, except the one path constraint of the "
+        "history probe, whose rows are recognised by their bounds (-7, 9)",
+        "non-dynamic parameter values are frozen in the cached residual function after the first transcribe() "
+        "(documented contract of dynamic_parameters / clear_transcription_cache); the second-transcribe stream changes "
+        "dynamic parameters only",
+        "ModelicaMixin (how F, parameters, inputs and nominals are obtained from a .mo file) is covered by C14/C13, not here",
     ]
     c.prove()
     rng = c.rng
     run_batch(c, [dict(x) for x in CORPUS], rng)
-    n_main = c.n(70, 600)
+    n_main = c.n(70, 500)
     n_own = c.n(16, 100)
     n_solve = c.n(10, 60)
     insts = [S.gen_instance(rng, big=c.big and rng.random() < 0.3) for _ in range(n_main)]
@@ -735,11 +753,12 @@ def run(c):
         if inst["na"] + inst["nc"] == 0:
             continue
         hist.append(S.add_history_probe(rng, inst))
+    mo = [MO.gen(rng, rng.choice(sorted(MO.MODELS))) for _ in range(c.n(3, 12))]
     sol = [S.gen_instance(rng, kind="solve") for _ in range(n_solve)]
     for inst in sol[: n_solve // 3]:
         S.add_own_times(rng, inst)
     # batches keep the driver input small
-    allinst = insts + own + hist
+    allinst = insts + own + hist + mo
     for k in range(0, len(allinst), 40):
         run_batch(c, allinst[k:k + 40], rng)
     run_batch(c, sol, rng, solve=True)
